@@ -346,6 +346,7 @@ fn cleanup_escape_ws(parts: &mut [StringPart]) {
                     if let Some(next) = next.chars().next()
                         && !next.is_ascii_hexdigit()
                         && next != '\t'
+                        && next != ' '
                     {
                         s.pop();
                     }
